@@ -247,3 +247,12 @@ def run(ctx):
     r4_headers_survive_reset(ctx)
     r4b_promotion_order(ctx)
     r5_stream_zero(ctx)
+
+
+_run_rules = run
+
+
+def run(ctx):
+    _run_rules(ctx)
+    from .. import boundaries
+    boundaries.check(ctx, 'C04.RB', 'C04')
